@@ -5,14 +5,18 @@
      the parser mishandled before /repo c5ad60c), flow mappings; Key / Value tokens present or absent, trailing FlowEntry,
      properties in either order; ARBITRARY spans; streams of any number of documents with %YAML / %TAG directives, '---' and any
      number of '...' markers, with or without keep_tags; the fuel of parse_tokens is shown to suffice.
-   SCANNER HALF (text -> tokens) and the composition text -> events, for a sub-language of TEXT (Spec/FlowText.v: single-line
-     flow sequences and flow mappings of one-word plain scalars, single pairs `k: v` inside sequences, arbitrary nesting up to
-     the scanner's flow-level limit, one separator layout): second part of this file.  All other text layouts: differential runs.
+   SCANNER HALF (text -> tokens) and the composition text -> events, for two sub-languages of TEXT: second and third part of
+     this file.  FLOW (Spec/FlowText.v): single-line flow sequences and flow mappings of one-word plain scalars, single pairs
+     `k: v` inside sequences, arbitrary nesting up to the scanner's flow-level limit, one separator layout.  BLOCK
+     (Spec/BlockText.v): nested block sequences and block mappings of one-word plain scalars, any indentation widths, compact
+     (`- - a`, `- k: v`) and next-line placement of nested collections, nesting up to the scanner's block-nesting limit.
+     All other text layouts: differential runs.
    Only statements, each closed by [exact] of a lemma proved in Proofs/TokenGrammarProofs.v / TokenStreamProofs.v /
-   ScanFlowProofs.v, with Print Assumptions. *)
+   ScanFlowProofs.v / ScanBlockProofs.v, with Print Assumptions. *)
 From Coq Require Import List NArith Bool.
 Import ListNotations.
-Require Import Parser SBase SFetch Pipe Drivers TokenGrammar TokenGrammarProofs TokenStreamProofs FlowText ScanFlowProofs.
+Require Import Parser SBase SFetch Pipe Drivers TokenGrammar TokenGrammarProofs TokenStreamProofs FlowText ScanFlowProofs BlockText ScanBlockProofs.
+Require Dispatch DispatchTie.
 
 (* The statement for one document, parameterised by the well-formedness predicate on (explicit document start?, root). *)
 Definition C03_tokens_statement (WF : bool -> ltree -> bool) : Prop :=
@@ -151,7 +155,10 @@ Proof. vm_compute. repeat split; reflexivity. Qed.
    pair = word :_ node, entries / pairs separated by ,_ (_ = one space), nothing behind an opening or before a closing
    bracket; a word is a non-empty string of characters that are no blank, break, NUL, flow indicator, quote or one of
    : # - ? * & ! | > % @ ` (wch); render f is the text, lt f the layout tree it denotes (a single pair is the implicit
-   mapping LFMap [(Key k, Value v)] inside the sequence), doc_text f = render f followed by a line feed.               *)
+   mapping LFMap [(Key k, Value v)] inside the sequence), doc_text f = render f followed by a line feed.
+   Side condition of fwf (YAML 1.2.2 7.4.2, ns-s-implicit-yaml-key; enforced by the scanner since /repo 57aa316): the key
+   of a single pair inside [ ] has at most 1024 characters (key_ok); the keys of { } pairs are not limited.  fgram is the
+   grammar without that condition; C03_flow_long_key_rejected shows the condition is sharp.                             *)
 (* ================================================================================================================= *)
 
 (* THE SCANNER (scan_str = the scanner model over the string input with the fuel of the correspondence runs) on the text
@@ -162,7 +169,9 @@ Proof. vm_compute. repeat split; reflexivity. Qed.
    inserted before, FlowMappingEnd emitted at the comma or closing bracket that ends a single pair, also when the value of the
    pair is a nested flow mapping with its own commas: the repaired class comma-of-nested-flow-mapping-ends-implicit-pair), the root
    collection's own simple key going stale at the line break or by the 1024-character limit, the token queue being
-   handed out only when no simple key is pending. *)
+   handed out only when no simple key is pending, the closing bracket matching the level it closes (check_flow_closer,
+   /repo 88700d3), only a ':' met in state Possible starting an implicit mapping (/repo 597a354), no look-ahead for a
+   tab behind ':' in flow context (/repo b87c12b), the 1024-character limit on the key of a single pair (/repo 57aa316). *)
 Theorem C03_flow_text_tokens : forall f,
     fwf f = true -> is_coll f = true -> (depth f <= 255)%nat ->
     exists toks, scan_str (doc_text f) = (toks, SEnded) /\ map snd toks = wrap false false (tokens_of (lt f)).
@@ -183,6 +192,17 @@ Theorem C03_flow_node : forall f, fwf f = true -> NodeScan f.
 Proof. exact node_scan. Qed.
 Print Assumptions C03_flow_node.
 
+(* the key limit of fwf is sharp: a flow sequence whose FIRST entry is a single pair with a key (a word) of more than 1024
+   characters -- whatever its value and the other entries are -- is a scan error at the ':' behind the key ("illegal
+   placement of ':' indicator", site 98), after StreamStart alone has been delivered *)
+Theorem C03_flow_long_key_rejected : forall k v es,
+    word_ok k = true -> key_short k = false ->
+    scan_str (doc_text (FS ((Some k, v) :: es)))
+    = ([(span_empty {| m_index := 0; m_line := 1; m_col := 0 |}, TStreamStart)],
+       SError 98 {| m_index := 1 + N.of_nat (length k); m_line := 1; m_col := 1 + N.of_nat (length k) |}).
+Proof. exact scan_long_key. Qed.
+Print Assumptions C03_flow_long_key_rejected.
+
 (* [a, [b], k: {x: y, z: []}, {}] *)
 Definition c03_flow_example : fnode :=
   FS [ (None, FW [97%N]); (None, FS [(None, FW [98%N])]);
@@ -202,8 +222,154 @@ Example c03_flow_example_ok :
   /\ map fst (fst (run_str (doc_text c03_flow_example))) = wrap_events false (events_of (lt c03_flow_example))
   /\ length (events_of (lt c03_flow_example)) = 18%nat.
 Proof. vm_compute. repeat split; reflexivity. Qed.
+(* the key limit: 1024 characters pass, 1025 do not -- in a sequence; in a mapping they do; fgram does not look at it *)
+Example c03_flow_key_limit :
+  let k n := repeat 107%N n in
+  fwf (FS [(Some (k 1024%nat), FW [118%N])]) = true /\ fwf (FS [(Some (k 1025%nat), FW [118%N])]) = false
+  /\ fwf (FM [(k 1025%nat, FW [118%N])]) = true /\ fgram (FS [(Some (k 1025%nat), FW [118%N])]) = true
+  /\ fwf (FS [(None, FM [(k 1025%nat, FS [(Some (k 1025%nat), FW [118%N])])])]) = false
+  /\ snd (scan_str (doc_text (FS [(Some (k 1025%nat), FW [118%N])]))) = SError 98 {| m_index := 1026; m_line := 1; m_col := 1026 |}
+  /\ snd (scan_str (doc_text (FS [(Some (k 1024%nat), FW [118%N])]))) = SEnded
+  /\ snd (scan_str (doc_text (FM [(k 1025%nat, FW [118%N])]))) = SEnded.
+Proof. vm_compute. repeat split; reflexivity. Qed.
 (* the predicates are not "accept everything": an empty word, a word with a blank, a word starting like an indicator *)
 Example c03_flow_rejects :
   fwf (FS [(None, FW [])]) = false /\ fwf (FS [(None, FW [97; 32; 98]%N)]) = false /\ fwf (FM [([45; 97]%N, FW [98%N])]) = false
   /\ is_coll (FW [97%N]) = false.
 Proof. vm_compute. repeat split; reflexivity. Qed.
+
+(* ================================================================================================================= *)
+(* SCANNER HALF, BLOCK STRUCTURE, on text.  Spec/BlockText.v: bnode = word | sequence | mapping; an item of a sequence is
+   "-" followed by its child, a pair of a mapping is  word ":"  followed by its child; a child is " word" on the same line,
+   or a collection COMPACT on the same line (only behind "-": `- - a`, `- k: v`; it goes on 2 columns right of the "-"), or a
+   collection BELOW, on the following lines, 1 + d columns (any d) right of the column of its parent, or -- only behind "key:" --
+   an INDENTLESS sequence (BI) on the following lines at the column of the key itself (it denotes LISeq: BlockEntry tokens
+   without BlockSequenceStart / BlockEnd); every element of a collection starts at the column of the collection; lines end with one line feed, indentation is spaces; the document is
+   a collection at column 0.  brender col n is the text of n standing at column col, blt n the layout tree it denotes,
+   bdoc_text n = brender 0 n.  Side condition of bwf (YAML 1.2.2, ns-s-implicit-yaml-key): a key has at most 1024 characters. *)
+(* ================================================================================================================= *)
+
+(* THE SCANNER on the text of ANY block collection of the sub-language nested at most 255 deep (BLOCK_NESTING_MAX, /repo
+   99c201b; deeper is an error by design), of any size: it ends normally and delivers exactly StreamStart, the tokens of the
+   layout tree, StreamEnd.  Covers: the indentation stack (roll_indent opening a collection at a deeper column with
+   BlockSequenceStart / BlockMappingStart -- the latter inserted, with Key, in front of the key's scalar --, unroll_indent
+   closing every collection right of the next line's column with one BlockEnd each, also several at once and at the end of
+   the input; the one-column raise behind "-" NL and "key:" without a BlockEnd and its removal by the next roll_indent or
+   by the plain-scalar scanner or -- in front of an indentless sequence -- by unroll_indent, without a BlockEnd; the "-" of an
+   indentless sequence going on with the mapping's own level), the simple key of block context (possible from the key's word until its ':', REQUIRED for
+   the further keys of a mapping, stale at the line break, limited to 1024 characters), the plain-scalar scanner reading
+   on over the line break and the next line's indentation and stopping because that line is not indented more than the
+   current collection, the token queue being handed out between the fetches (whenever no key is pending at its head; the
+   BlockEnd tokens in front of a pending key are handed out before its ':' is fetched). *)
+Theorem C03_block_text_tokens : forall n,
+    bwf_root n = true -> (bdepth n <= 255)%nat ->
+    exists toks, scan_str (bdoc_text n) = (toks, SEnded) /\ map snd toks = wrap false false (tokens_of (blt n)).
+Proof. exact scan_block. Qed.
+Print Assumptions C03_block_text_tokens.
+
+(* TEXT -> EVENTS for the block sub-language: the whole model pipeline run_str emits exactly the events of the tree the text
+   denotes, and ends normally. *)
+Theorem C03_block_text_events : forall n,
+    bwf_root n = true -> (bdepth n <= 255)%nat ->
+    map fst (fst (run_str (bdoc_text n))) = wrap_events false (events_of (blt n)) /\ snd (run_str (bdoc_text n)) = PDone.
+Proof. exact run_block. Qed.
+Print Assumptions C03_block_text_events.
+
+(* the induction behind it: a collection of the sub-language anywhere inside a block structure -- at any column right of the
+   innermost open collection, reached on the line of its "-" or on the line below its "-" / "key:", under any stack of open
+   collections, followed by any line that is not indented more -- is scanned to its tokens up to the BlockEnds that the next
+   line (or the end of input) triggers (CollScan, scanned_b in Proofs/ScanBlockProofs.v) *)
+Theorem C03_block_node : forall n inl, bwf inl n = true -> b_is_coll n = true -> CollScan n.
+Proof. exact coll_scan_all. Qed.
+Print Assumptions C03_block_node.
+
+(* ... and an indentless sequence below a key: its items are scanned like the further items of a sequence at the key's column,
+   under the mapping's own level; it owes no BlockEnd of its own (IScan) *)
+Theorem C03_block_indentless_node : forall items, bwf false (BI items) = true -> IScan items.
+Proof. exact iscan_all. Qed.
+Print Assumptions C03_block_indentless_node.
+
+(* - a
+   - k: v
+     m:
+      - x
+      - - p
+        - q
+   -
+     - y
+   -
+       kk:
+        z: w                                                                                                     *)
+Definition c03_block_example : bnode :=
+  BS None [ BW [97%N];
+            BM None [ ([107%N], BW [118%N]);
+                      ([109%N], BS (Some 0%nat) [BW [120%N]; BS None [BW [112%N]; BW [113%N]]]) ];
+            BS (Some 1%nat) [BW [121%N]];
+            BM (Some 3%nat) [ ([107; 107]%N, BM (Some 0%nat) [([122%N], BW [119%N])]) ] ].
+Example c03_block_example_ok :
+  bwf_root c03_block_example = true /\ bdepth c03_block_example = 4%nat
+  /\ bdoc_text c03_block_example
+     = [45;32;97;10; 45;32;107;58;32;118;10; 32;32;109;58;10; 32;32;32;45;32;120;10; 32;32;32;45;32;45;32;112;10;
+        32;32;32;32;32;45;32;113;10; 45;10; 32;32;45;32;121;10; 45;10; 32;32;32;32;107;107;58;10; 32;32;32;32;32;122;58;32;119;10]%N
+  /\ map snd (fst (scan_str (bdoc_text c03_block_example)))
+     = [TStreamStart; TBlockSequenceStart; TBlockEntry; TScalar Plain [97%N];
+        TBlockEntry; TBlockMappingStart; TKey; TScalar Plain [107%N]; TValue; TScalar Plain [118%N];
+          TKey; TScalar Plain [109%N]; TValue; TBlockSequenceStart; TBlockEntry; TScalar Plain [120%N];
+            TBlockEntry; TBlockSequenceStart; TBlockEntry; TScalar Plain [112%N]; TBlockEntry; TScalar Plain [113%N];
+            TBlockEnd; TBlockEnd; TBlockEnd;
+        TBlockEntry; TBlockSequenceStart; TBlockEntry; TScalar Plain [121%N]; TBlockEnd;
+        TBlockEntry; TBlockMappingStart; TKey; TScalar Plain [107; 107]%N; TValue;
+          TBlockMappingStart; TKey; TScalar Plain [122%N]; TValue; TScalar Plain [119%N]; TBlockEnd; TBlockEnd;
+        TBlockEnd; TStreamEnd]
+  /\ map fst (fst (run_str (bdoc_text c03_block_example))) = wrap_events false (events_of (blt c03_block_example))
+  /\ length (events_of (blt c03_block_example)) = 25%nat.
+Proof. vm_compute. repeat split; reflexivity. Qed.
+(* k:
+   - a
+   - b: c
+     d:
+     - e
+   - - x
+   m: n                  indentless sequences: below "k:" at column 0 and below "d:" at column 2 *)
+Definition c03_indentless_example : bnode :=
+  BM None [ ([107%N], BI [ BW [97%N];
+                           BM None [([98%N], BW [99%N]); ([100%N], BI [BW [101%N]])];
+                           BS None [BW [120%N]] ]);
+            ([109%N], BW [110%N]) ].
+Example c03_indentless_example_ok :
+  bwf_root c03_indentless_example = true
+  /\ bdoc_text c03_indentless_example
+     = [107;58;10; 45;32;97;10; 45;32;98;58;32;99;10; 32;32;100;58;10; 32;32;45;32;101;10; 45;32;45;32;120;10; 109;58;32;110;10]%N
+  /\ map snd (fst (scan_str (bdoc_text c03_indentless_example)))
+     = [TStreamStart; TBlockMappingStart; TKey; TScalar Plain [107%N]; TValue;
+          TBlockEntry; TScalar Plain [97%N];
+          TBlockEntry; TBlockMappingStart; TKey; TScalar Plain [98%N]; TValue; TScalar Plain [99%N];
+                         TKey; TScalar Plain [100%N]; TValue; TBlockEntry; TScalar Plain [101%N]; TBlockEnd;
+          TBlockEntry; TBlockSequenceStart; TBlockEntry; TScalar Plain [120%N]; TBlockEnd;
+        TKey; TScalar Plain [109%N]; TValue; TScalar Plain [110%N]; TBlockEnd; TStreamEnd]
+  /\ map snd (fst (scan_str (bdoc_text c03_indentless_example))) = wrap false false (tokens_of (blt c03_indentless_example))
+  /\ map fst (fst (run_str (bdoc_text c03_indentless_example))) = wrap_events false (events_of (blt c03_indentless_example)).
+Proof. vm_compute. repeat split; reflexivity. Qed.
+(* the predicates are not "accept everything": a scalar at the root, an empty sequence, a compact collection as the value of
+   a key, an indentless sequence at the root or as an item, a key of 1025 characters (1024 pass) *)
+Example c03_block_rejects :
+  bwf_root (BW [97%N]) = false /\ bwf_root (BS None []) = false
+  /\ bwf_root (BM None [([107%N], BS None [BW [97%N]])]) = false /\ bwf_root (BM None [([107%N], BS (Some 0%nat) [BW [97%N]])]) = true
+  /\ bwf_root (BI [BW [97%N]]) = false /\ bwf_root (BS None [BI [BW [97%N]]]) = false /\ bwf_root (BM None [([107%N], BI [BW [97%N]])]) = true
+  /\ bwf_root (BM None [(repeat 107%N 1025, BW [97%N])]) = false /\ bwf_root (BM None [(repeat 107%N 1024, BW [97%N])]) = true.
+Proof. vm_compute. repeat split; reflexivity. Qed.
+
+(* TIE BY TRANSLATION.  The scanner's dispatcher - which fetch function runs for which next two characters, flow level and
+   adjacent-value position - is the one of the source: Gen/Dispatch.v is regenerated on every run from the `match c` of
+   Scanner::fetch_next_token (patterns, guards, actions of the arms), Proofs/DispatchTie.v shows that the model's
+   fetch_next_token is its prologue followed by exactly that decision (fetch_next_token_shape, by conversion) and that
+   the model's if-chain runs the function the generated table names, for EVERY pair of characters and every state.  The
+   proof splits on the character, not on the order of the arms: re-ordering disjoint arms in the source keeps it valid,
+   a changed pattern, guard or action breaks it. *)
+Theorem C03_scanner_dispatcher_is_source :
+  forall (I : Type) (ops : SBase.InputOps I) (F : nat) (c nc : N) (s : SBase.sc I),
+  DispatchTie.dispatch_tail ops F c nc s =
+  DispatchTie.run_dact ops F
+    (Dispatch.dispatch c nc (0 <? SBase.sc_flow_level s)%N (m_index (SBase.sc_mark s) =? SBase.sc_adjacent s)%N) s.
+Proof. exact (@DispatchTie.tbl_dispatch). Qed.
+Print Assumptions C03_scanner_dispatcher_is_source.
